@@ -165,7 +165,9 @@ const collectionContextKey contextKey = "collection"
 // have it.
 func isV1Collection(col models.Collection) bool {
 	v, ok := col.IndexSchema["vector"]
-	return ok && v.VectorVamana != nil
+	// The type decides which index a property has, a vectorVamana section
+	// left next to another type is not validated and not used.
+	return ok && v.Type == models.IndexTypeVectorVamana && v.VectorVamana != nil
 }
 
 // Extracts collectionId from the URI and fetches the collection from the cluster.
